@@ -298,6 +298,19 @@ Theorem integer_list_index : forall (A : Type) (l : list A) (ks : list Z) (d : A
    np_take (IdxList ks) l = None).
 Proof. intros A l ks d; exact (conj (np_take_list_ok l ks d) (np_take_list_raises l ks)). Qed.
 
+(* a boolean mask is accepted iff it has the length of the axis OR IS EMPTY; it selects the
+   entries under a True, in order, each at most once; every other length raises.
+   (Model repair: numpy accepts an empty boolean array as index of an axis of any length and
+   selects nothing; np_take used to answer None for it on a non-empty axis.  The theorems of
+   this file that quantify over idx hold of the repaired definition as they were stated.) *)
+Theorem boolean_mask_index : forall (A : Type) (bs : list bool) (l r : list A),
+  (np_take (IdxMask bs) l = Some r <-> (List.length bs = List.length l \/ bs = []) /\ r = mask_select bs l) /\
+  np_take (IdxMask []) l = Some [] /\
+  (List.length bs <> List.length l -> bs <> [] -> np_take (IdxMask bs) l = None).
+Proof.
+  intros A bs l r; exact (conj (np_take_mask_spec bs l r) (conj (np_take_mask_empty l) (np_take_mask_raises bs l))).
+Qed.
+
 (* every selected position is in range *)
 Theorem index_positions_in_range : forall (idx : np_idx) (n : nat) (ps : list nat),
   np_positions idx n = Some ps -> Forall (fun i => (i < n)%nat) ps.
@@ -319,6 +332,17 @@ Theorem subprobe_closed_form : forall (T : Type) (N : Num T) (n : nat) (idx : np
                  (if sm then x_meta px else []) (Z.of_nat (List.length locs)))
   end.
 Proof. exact @subprobe_spec_gen. Qed.
+
+(* Probe.subprobe(np.array([], dtype=bool)) of a probe of ANY size never raises: the probe
+   without elements, slots that were None stay None, the others are emptied, PCS / frequency /
+   bandwidth kept, metadata kept or emptied, numelements 0. *)
+Theorem subprobe_of_empty_mask : forall (T : Type) (N : Num T) (n : nat) (sm : bool) (px : probe_x (T:=T)),
+  wf_len n px ->
+  subprobe N (IdxMask []) sm px =
+  Some (mkPX (mkProbe [] (option_map (fun _ => []) (p_oris (x_core px))) (p_pcs (x_core px)))
+             (option_map (fun _ => []) (x_dims px)) (option_map (fun _ => []) (x_shapes px)) []
+             (x_freq px) (x_bw px) (if sm then x_meta px else []) 0%Z).
+Proof. exact @subprobe_empty_mask. Qed.
 
 (* subprobe commutes with rotate / translate / flip / translate_to_point_O / reset_position:
    the same object, the same raise, whichever is done first — bit for bit in floating point
@@ -642,6 +666,10 @@ Example glue_runs_on_rationals :
     Some ([(-1, 1, 0); (1, 1, 0); (1, -1, 0)]%Q, [false; false; true]) /\
   (sub (IdxInt 1) false, sub (IdxList [6%Z]) false, sub (IdxMask [true; false]) false,
    sub (IdxSlice None None (Some 0%Z)) false) = (None, None, None, None) /\
+  (* the empty boolean array: the probe without elements (metadata dropped / kept) *)
+  option_map (fun p => (p_locs (x_core p), p_oris (x_core p), x_dims p, x_shapes p, x_dead p, x_meta p, x_numel p))
+             (sub (IdxMask []) false) = Some ([], Some [], Some [], Some [], [], [], 0%Z) /\
+  option_map (@x_meta Q) (sub (IdxMask []) true) = option_map (@x_meta Q) px0 /\
   option_map (@x_meta Q) (make_matrix_probe_x NumQ 1 5%Q 4 7%Q (Some 2%Q) ArgNone ArgNone ArgNone ArgNone (Some 3%Q) None None) =
     Some [("probe_type"%string, MStr "linear"); ("numx"%string, MInt 1); ("numy"%string, MInt 4);
           ("pitch_x"%string, MNan); ("pitch_y"%string, MNum 7%Q)] /\
